@@ -277,7 +277,43 @@ def real_run(plan, argv_opts, timeout=60):
         srv.close()
 
 
+def real_client_run(plan, argv_opts, timeout=60):
+    """Client audit: start the real tool listening on a free loopback port, then connect the scripted client to it."""
+    probe = socket.socket()
+    probe.bind(('127.0.0.1', 0))
+    port = probe.getsockname()[1]
+    probe.close()
+    argv = [sys.executable, os.path.join(runner.REPO, 'ssh-audit.py')] + list(argv_opts) + ['-c', '-p', str(port)]
+    env = dict(os.environ, PYTHONPATH=os.path.join(runner.REPO, 'src'), PYTHONHASHSEED='0', COLUMNS='80')
+    env.pop('NO_COLOR', None)
+    proc = subprocess.Popen(argv, stdout=subprocess.PIPE, stderr=subprocess.PIPE, text=True, env=env)
+    world = _StubWorld(plan)
+    spec = plan['world']['clients'][0]
+    model = object.__new__(peers.SimSSHClient)
+    model.w, model.k, model.spec, model.name = world, world.k, spec, spec.get('name', 'client')
+    model.p, model.faults, model.conns = spec['profile'], spec.get('faults', []), []
+    model.log = {'name': model.name, 'connected': False, 'refused': 0, 'kexinits_rx': [], 'banners_rx': []}
+    c = None
+    for _ in range(200):
+        try:
+            c = socket.create_connection(('127.0.0.1', port), timeout=5)
+            break
+        except OSError:
+            time.sleep(0.05)
+    if c is not None:
+        c.settimeout(None)
+        th = threading.Thread(target=_RealConn(world, c, model, 0).run, args=(model.script,), daemon=True)
+        th.start()
+    try:
+        out, err = proc.communicate(timeout=timeout)
+    except subprocess.TimeoutExpired:
+        proc.kill()
+        out, err = proc.communicate()
+    return {'status': proc.returncode, 'stdout': out, 'stderr': err, 'port': port}
+
+
 SCENARIOS = []
+CLIENT_SCENARIOS = []
 
 
 def _scn(name, profile, opts=('-n',), faults=None, timeout=2, knobs=None):
@@ -325,11 +361,56 @@ def _build():
     _scn('policy audit', hard, opts=('-n', '-P', 'Hardened OpenSSH Server v9.9 (version 1)'))
 
 
+def _build_clients():
+    oc = {'banner': 'SSH-2.0-OpenSSH_9.6', 'kex': ['curve25519-sha256', 'diffie-hellman-group14-sha256', 'ext-info-c', 'kex-strict-c-v00@openssh.com'],
+          'key': ['ssh-ed25519', 'rsa-sha2-512', 'ecdsa-sha2-nistp256'], 'enc': ['chacha20-poly1305@openssh.com', 'aes128-ctr', 'aes256-cbc'],
+          'mac': ['hmac-sha2-256-etm@openssh.com', 'hmac-sha1'], 'comp': ['none', 'zlib@openssh.com']}
+    putty = dict(oc, banner='SSH-2.0-PuTTY_Release_0.80', kex=['curve25519-sha256', 'diffie-hellman-group-exchange-sha256', 'diffie-hellman-group1-sha1'])
+    CLIENT_SCENARIOS.append({'name': 'client: OpenSSH-like', 'profile': oc, 'opts': ['-n'], 'faults': None})
+    CLIENT_SCENARIOS.append({'name': 'client: PuTTY, JSON', 'profile': putty, 'opts': ['-j'], 'faults': None})
+    CLIENT_SCENARIOS.append({'name': 'client: directions differ', 'profile': dict(oc, enc_s2c=['aes256-gcm@openssh.com'], mac_s2c=['hmac-sha2-512']), 'opts': ['-n'], 'faults': None})
+    CLIENT_SCENARIOS.append({'name': 'client: KEXINIT after our banner', 'profile': dict(oc, early_kexinit=False), 'opts': ['-n'], 'faults': None})
+    CLIENT_SCENARIOS.append({'name': 'client: closes instead of KEXINIT', 'profile': oc, 'opts': ['-n'], 'faults': [{'msg': 'kexinit', 'kind': 'close_before'}]})
+    CLIENT_SCENARIOS.append({'name': 'client: truncated KEXINIT, close', 'profile': oc, 'opts': ['-n'], 'faults': [{'msg': 'kexinit', 'kind': 'truncate_close', 'off': 100}]})
+    CLIENT_SCENARIOS.append({'name': 'client: garbage instead of a banner', 'profile': oc, 'opts': ['-n'], 'faults': [{'msg': 'banner', 'kind': 'garbage', 'n': 40}]})
+
+
 def conformance(verbose=True):
     runner.prepare()
     if not SCENARIOS:
         _build()
+        _build_clients()
     bad = 0
+    for sc in CLIENT_SCENARIOS:
+        opts = list(sc['opts']) + ['-t', '4']
+        planr = gen.client_plan(1, opts, sc['profile'], port=2222, faults=sc['faults'])
+        planr['world']['clients'][0]['name'] = 'conformance'
+        real = real_client_run(planr, opts)
+        same = []
+        results = {}
+        for profile_name, kn in (('linux', {'rst_after_close': 1, 'rst_keeps_data': 1}), ('quiet', {'rst_after_close': 0, 'rst_keeps_data': 0})):
+            for rtt in (2, 200):
+                plan = gen.client_plan(1, opts + ['-c', '-p', str(real['port'])], sc['profile'], port=real['port'], faults=sc['faults'], net={'rtt_us': rtt},
+                                       knobs=dict(cpu_cost=[20, 60], **kn))
+                plan['world']['clients'][0]['name'] = 'conformance'
+                plan['world']['clients'][0]['from'] = ['127.0.0.1', 50022]
+                sim = runner.run_forked(plan)
+                results['%s/%dus' % (profile_name, rtt)] = sim
+                if sim.get('status') == real['status'] and sim.get('stdout') == real['stdout']:
+                    same.append('%s/%dus' % (profile_name, rtt))
+        if verbose:
+            print('%-62s real status %s  reproduced by: %s' % (sc['name'][:62], real['status'], ', '.join(same) if same else 'NO CONFIGURATION'))
+        if not same:
+            bad += 1
+            sim = results['linux/2us']
+            a, b = real['stdout'].split('\n'), (sim.get('stdout') or '').split('\n')
+            for i in range(max(len(a), len(b))):
+                x = a[i] if i < len(a) else '<end>'
+                y = b[i] if i < len(b) else '<end>'
+                if x != y:
+                    print('    first difference at line %d:\n      real: %s\n      sim:  %s' % (i + 1, x[:200], y[:200]))
+                    break
+            print('    status real %s sim %s; stderr real %r' % (real['status'], sim.get('status'), real['stderr'][-200:]))
     for sc in SCENARIOS:
         opts = list(sc['opts']) + ['--skip-rate-test', '-t', str(sc['timeout'])]
         # the real world first (it chooses the port), then the simulated one with the same address
@@ -361,5 +442,5 @@ def conformance(verbose=True):
                     break
             if sim.get('status') != real['status']:
                 print('    status real %s sim %s; sim harness_error=%r' % (real['status'], sim.get('status'), sim.get('harness_error')))
-    print('conformance: %d scenarios run over real loopback sockets; %d of them reproduced by no simulator configuration (socket profile x latency)' % (len(SCENARIOS), bad))
+    print('conformance: %d scenarios run over real loopback sockets; %d of them reproduced by no simulator configuration (socket profile x latency)' % (len(SCENARIOS) + len(CLIENT_SCENARIOS), bad))
     return 0 if bad == 0 else 1
